@@ -7,3 +7,4 @@ import RelicVerif.Props.C07
 import RelicVerif.Props.C14
 import RelicVerif.Props.C09
 import RelicVerif.Props.C03
+import RelicVerif.Props.C18
